@@ -57,6 +57,10 @@ def setup(jax_x64=True):
     if real != want:
         raise RuntimeError(f"aspire imported from {real}, expected {want}")
     logging.getLogger("aspire").setLevel(logging.ERROR)
+    if os.environ.get("VERIF_AUDIT"):  # development aid: records which option values the checks exercise (tools/option_audit.py)
+        from tools import option_audit
+
+        option_audit.install()
 
 
 def get_xp(name):
